@@ -100,10 +100,16 @@ pub fn run(ctx: &RunCtx) -> PropResult {
     // systematic truncation sweep of the index of a closed blob: every length (thorough) or a stride (quick)
     let mut cases = vec![];
     let mut lens = vec![];
-    for (keylen, bloom) in [(8usize, Bloom::None), (33, Bloom::Odd), (100, Bloom::Tiny)] {
+    // key length 400: 8 record headers per leaf block, so the 46-header index has six leaves and an inner node
+    // (tree region and leaves region differ - a size check that confuses the two offsets is only visible there)
+    for (keylen, bloom) in [(8usize, Bloom::None), (33, Bloom::Odd), (100, Bloom::Tiny), (400, Bloom::None)] {
         let total = sweep_index_len(ctx, keylen, &bloom);
         lens.push(serde_json::json!({"keylen": keylen, "index_len": total}));
-        let stride = ctx.tier.pick(if keylen == 8 { 3 } else { 13 }, 1) as u64;
+        let stride = match keylen {
+            8 => ctx.tier.pick(3, 1),
+            400 => ctx.tier.pick(173, 3),
+            _ => ctx.tier.pick(13, 1),
+        } as u64;
         let mut l = 0u64;
         while l < total {
             for lazy in [false, true] {
@@ -114,8 +120,12 @@ pub fn run(ctx: &RunCtx) -> PropResult {
             }
             l += stride;
         }
-        for l in [total.saturating_sub(1), total.saturating_sub(2)] {
-            cases.push(sweep_case(keylen, bloom.clone(), false, Some(l as u32)));
+        // the last bytes of the file: every length in the final 40 bytes (quick: 1, 2, 3, 8, 40 bytes missing)
+        let tail: Vec<u64> = if ctx.tier == Tier::Thorough { (1..=40).collect() } else { vec![1, 2, 3, 8, 40] };
+        for cut in tail {
+            for lazy in [false, true] {
+                cases.push(sweep_case(keylen, bloom.clone(), lazy, Some(total.saturating_sub(cut) as u32)));
+            }
         }
     }
     report.extra.insert("truncation_sweep".into(), serde_json::json!({"files": lens, "every_length": ctx.tier == Tier::Thorough}));
